@@ -8,12 +8,14 @@
 #include <functional>
 #include <string>
 #include <vector>
+#include <memory>
 #include "mcx/mcx.h"
 using namespace cola; using namespace std;
 static mcx::Ctx ctx;
 typedef vector<double> VD;
 struct Tpl { string name; function<CompoundConstraint *(vpsc::Rectangles &, vector<CompoundConstraint *> &)> make; function<double(const VD &, const VD &, const VD &, const VD &)> viol; int maxNode; };
 
+static bool g_mode_makeFeasibleOnly = false; static vector<double> g_w, g_h;   // (for the page-boundary template: its oracle needs the node sizes and is not evaluated after makeFeasible() alone)
 static vector<Tpl> templates() {
     vector<Tpl> T;
     for (int dim = 0; dim < 2; dim++) {
@@ -39,6 +41,16 @@ static vector<Tpl> templates() {
     // the hard part is still only the relative offsets; the variants are in the alphabet because they take a different path (fixed weights)
     T.push_back({"FixedRelative fixedPosition {0,1}", [=](vpsc::Rectangles &rs, vector<CompoundConstraint *> &) -> CompoundConstraint * { return new FixedRelativeConstraint(rs, {0, 1}, true); }, [=](const VD &x, const VD &y, const VD &x0, const VD &y0) { return max(fabs((x[1] - x[0]) - (x0[1] - x0[0])), fabs((y[1] - y[0]) - (y0[1] - y0[0]))); }, 1});
     T.push_back({"FixedRelative fixedPosition {1,2}", [=](vpsc::Rectangles &rs, vector<CompoundConstraint *> &) -> CompoundConstraint * { return new FixedRelativeConstraint(rs, {1, 2}, true); }, [=](const VD &x, const VD &y, const VD &x0, const VD &y0) { return max(fabs((x[2] - x[1]) - (x0[2] - x0[1])), fabs((y[2] - y[1]) - (y0[2] - y0[1]))); }, 2});
+    // a separation BETWEEN TWO ALIGNMENT guide lines (the SeparationConstraint(dim, AlignmentConstraint*, AlignmentConstraint*, gap, equality) constructor)
+    for (int dim = 0; dim < 2; dim++) for (int eq = 0; eq < 2; eq++) { vpsc::Dim D = (vpsc::Dim)dim; string ds = dim ? "Y" : "X";
+        T.push_back({"Separation " + ds + " between guide lines a0{0:+0,1:+5} +20" + (eq ? "==" : "<=") + " a1{2:+0}", [=](vpsc::Rectangles &, vector<CompoundConstraint *> &extra) -> CompoundConstraint * { AlignmentConstraint *a0 = new AlignmentConstraint(D), *a1 = new AlignmentConstraint(D); a0->addShape(0, 0); a0->addShape(1, 5); a1->addShape(2, 0); extra.push_back(a0); extra.push_back(a1); return new SeparationConstraint(D, a0, a1, 20, eq); },
+                     [=](const VD &x, const VD &y, const VD &, const VD &) { const VD &p = dim ? y : x; double sp = p[2] - p[0] - 20; return max(fabs(p[1] - 5 - p[0]), eq ? fabs(sp) : max(0.0, -sp)); }, 2}); }
+    // page boundary: every node stays inside the page whose edges are themselves (heavily weighted) variables -- judged against the edges' actual positions
+    // after the layout.  The library does not evaluate page boundaries in makeFeasible() (documented in the code), so that mode is not judged.
+    { auto holder = std::make_shared<PageBoundaryConstraints *>(nullptr);
+      T.push_back({"PageBoundary [-15,45]x[-15,45] {0,1,2}", [=](vpsc::Rectangles &rs, vector<CompoundConstraint *> &) -> CompoundConstraint * { PageBoundaryConstraints *pb = new PageBoundaryConstraints(-15, 45, -15, 45, 100.0); for (unsigned i = 0; i < 3 && i < rs.size(); i++) pb->addShape(i, rs[i]->width() / 2, rs[i]->height() / 2); *holder = pb; return pb; },
+                   [=](const VD &x, const VD &y, const VD &, const VD &) { PageBoundaryConstraints *pb = *holder; if (!pb || g_mode_makeFeasibleOnly) return 0.0; double v = 0; for (size_t i = 0; i < 3 && i < x.size(); i++) { double hw = g_w[i] / 2, hh = g_h[i] / 2;
+                       v = max(v, pb->getActualLeftMargin(vpsc::XDIM) + hw - x[i]); v = max(v, x[i] + hw - pb->getActualRightMargin(vpsc::XDIM)); v = max(v, pb->getActualLeftMargin(vpsc::YDIM) + hh - y[i]); v = max(v, y[i] + hh - pb->getActualRightMargin(vpsc::YDIM)); } return v; }, 2}); }
     return T;
 }
 static const double GRID[3] = {0, 10, 30};
@@ -72,6 +84,7 @@ static void c07_case(const vector<Tpl> &T, int a, int b, int n, int code, int sz
         }
     } catch (vpsc::CriticalFailure &f) { thrown = f.what(); ctx.library_abort(f.what(), desc, inClass); } catch (...) { thrown = "exception"; ctx.library_abort("exception", desc, inClass); }
     if (cmlFixed) ctx.disarm();
+    g_mode_makeFeasibleOnly = (mode == 2); g_w = w0; g_h = h0;
     VD x, y; bool bad = false; string pos;
     for (int i = 0; i < n; i++) { x.push_back(rs[i]->getCentreX()); y.push_back(rs[i]->getCentreY()); pos += mcx::fmt("(%g,%g)", x[i], y[i]);
         if (!(x[i] == x[i]) || !(y[i] == y[i]) || std::isinf(x[i]) || std::isinf(y[i])) { ctx.violation("nonfinite", inClass, desc, pos); bad = true; }
@@ -195,6 +208,7 @@ static void c07_history_case(const vector<Tpl> &T, int a, int b, int n, int code
             else {
                 for (auto u : ux) delete u; for (auto u : uy) delete u; ux.clear(); uy.clear();
                 if (o == 0) alg->makeFeasible(); else alg->run();
+                g_mode_makeFeasibleOnly = (o == 0); g_w.assign(n, 20); g_h.assign(n, 20);   // (page boundaries are not evaluated by makeFeasible(); all history nodes are 20x20)
                 ctx.count("transitions"); ctx.count("evaluations");
                 VD x, y; string pos; for (int i = 0; i < n; i++) { x.push_back(rs[i]->getCentreX()); y.push_back(rs[i]->getCentreY()); pos += mcx::fmt("(%g,%g)", x[i], y[i]); }
                 // FixedRelative templates refer to the centres at CONSTRUCTION of the constraint: x0,y0
